@@ -26,6 +26,8 @@ claimed = {
  "C11": dict(text="Proof: with either dry-mode switch on, scaleNodeGroup and every emitter below it (taintOldestN, untaintNewestN, scaleUpCloudProviderNodeGroup, the reapers, TryDeleteNodes, ScaleUp, ScaleDown) leave the journal of writes unchanged.", ref="§7 C11", note="ASG tagging at provider registration (CreateOrUpdateTags) is outside a group's scan and outside the statement's enumeration. "),
  "C12": dict(text="Proof: every node a scan touches was listed by that group's own node lister in that scan and every cloud request goes to the group's own cloud group (post#[C12] on scaleNodeGroup); scaleNodeGroup preserves the invariant of every other group's state and writes only its own state (frame); RunOnce processes every group once (scan counter) and returns early only on not-in-group, provider rebuild failure or a vanished cloud group.", ref="§7 C12",
    note="The two-worlds comparison is reduced to footprints (reads/writes) + determinism of sequential Go (trusted meta-step). The wiring lister -> filter function (NewClient / NewNodeGroupLister / Filtered*Lister.List) is not yet under contract; the filter functions themselves are (C14). "),
+ "C13": dict(text="Proof on the real calculators, for every list length, pod shape and quantity: ComputePodResourceRequest returns max(sum of container requests, largest init-container request) + overhead per resource (loop invariants over recursive spec sums); CalculatePodsRequestedUsage returns the sum of that over the pods given and CalculateNodesCapacity the sum of allocatable CPU (millicores) / memory (bytes) over the nodes given (recursive opaque spec functions, unfolded per iteration); call-site assertions in scaleNodeGroup show that what calcPercentUsage divides is the total over the group's listed pods and over exactly the untainted uncordoned nodes filterNodes returned; calcPercentUsage returns 100 * request / capacity per resource and the decision uses max(cpu, mem). Order independence: Lean 4 / Mathlib lemma (lemmas/C13_perm.lean) that the contract's recursion is the list sum, hence permutation-invariant.", ref="§7 C13",
+   note="Quantities are read through uninterpreted milli()/qval() of resource.Quantity (assumed contracts on Quantity.MilliValue/Value/Cpu/Memory and the constructors; no saturation, no rounding of sub-milli quantities). float64 division as reals. Memory is compared in milli-bytes (1000 * bytes) on both sides of the division. "),
  "C14": dict(text="Proof for all pod/node shapes (any number of terms, expressions, values, owners): the three filter closures return true iff the documented condition holds (selector match or required In-expression listing the value, not DaemonSet; default group: not DaemonSet, not static, no selector, no affinity of any kind; node label equals value).", ref="§7 C14", note=""),
  "C15": dict(
    text="Proof, for every node object, taint list (any length/order), effect and API failure: AddToBeRemovedTaint sends the fetched object only if it did not carry the escalator taint when fetched (never re-stamped), with the fetched taints in order plus exactly one new taint (key, defaulted effect, current Unix time); DeleteToBeRemovedTaint sends it only if it carried the taint and removes exactly the first such taint (swap with last), keeping every other one; both write nothing else of any Node object (syntactic frame over all v1/metav1 field arrays).",
